@@ -120,6 +120,8 @@ type Stack struct {
 	// FreeMu, when set, serialises the harness's own shared data in free-running
 	// (race detector) runs. It is never held across library code.
 	FreeMu *sync.Mutex
+	// NoteFn (schedule engine) receives what a seam answered to the running thread.
+	NoteFn func(answer string)
 	// RNGSel selects the deterministic random stream of the running logical thread.
 	RNGSel func() int
 
@@ -146,6 +148,13 @@ func (s *Stack) seam(label string, notFound error) error {
 		return ErrInjected
 	}
 	return nil
+}
+
+// note records an environment answer for the pruned schedule exploration.
+func (s *Stack) note(format string, args ...interface{}) {
+	if s.NoteFn != nil {
+		s.NoteFn(fmt.Sprintf(format, args...))
+	}
 }
 
 // guard serialises access to the harness's shared data in free-running mode.
